@@ -93,12 +93,33 @@ func panicString(fn, exec int) string {
 	return fmt.Sprintf("digsim-injected-panic fn=%d exec=%d", fn, exec)
 }
 
+// PanicWrap is an error-typed panic value that wraps an error originating in
+// dig (what `if err := c.Invoke(...); err != nil { panic(err) }` in user code
+// produces): the panic must still surface as a PanicError, not as whatever is
+// found by unwrapping the panic value.
+type PanicWrap struct {
+	Fn, Exec int
+	Inner    error
+}
+
+func (e *PanicWrap) Error() string {
+	return fmt.Sprintf("injected panic fn=%d exec=%d: %v", e.Fn, e.Exec, e.Inner)
+}
+func (e *PanicWrap) Unwrap() error { return e.Inner }
+
+// aDigError is a genuine dig-originated error value (missing type).
+var aDigError = func() error {
+	return dig.New().Invoke(func(*PanicWrap) {})
+}()
+
 // injectedPanic recognises a panic value produced by a stub.
 func injectedPanic(p interface{}) (fn, exec int, ok bool) {
 	switch v := p.(type) {
 	case PanicVal:
 		return v.Fn, v.Exec, true
 	case *PanicErr:
+		return v.Fn, v.Exec, true
+	case *PanicWrap:
 		return v.Fn, v.Exec, true
 	case string:
 		if _, err := fmt.Sscanf(v, "digsim-injected-panic fn=%d exec=%d", &fn, &exec); err == nil {
@@ -611,6 +632,8 @@ func (w *World) call(f *Func, ft reflect.Type, args []reflect.Value) []reflect.V
 			panic(&PanicErr{f.ID, exec})
 		case 2:
 			panic(panicString(f.ID, exec))
+		case 3:
+			panic(&PanicWrap{f.ID, exec, aDigError})
 		}
 		panic(PanicVal{f.ID, exec})
 	}
